@@ -34,7 +34,7 @@ m = {'version': 1, 'setup_cmd': './setup.sh',
                   'kind_free_text': 'AST->z3/cvc5 verification-condition generator over the real /repo source with sidecar contracts (contracts/), '
                                     'plus bounded run-time-contract harnesses (bounded/)'}],
      'checks': checks, 'not_applicable': na,
-     'notes': 'fix: commits in /repo and known findings are listed in known_findings.json; DESIGN.md section 8.'}
+     'notes': 'fix: commits in /repo and known findings are listed in known_findings.json; DESIGN.md sections 8 and 10.4; seeded changes and which check catches them: DESIGN.md 10.5 and seeded/REGRESSION.txt.'}
 json.dump(m, open(os.path.join(ROOT, 'MANIFEST.json'), 'w'), indent=1)
 import jsonschema
 jsonschema.validate(m, json.load(open('/root/.vp/MANIFEST.schema.json')))
